@@ -27,7 +27,7 @@ def one(s):
         props = ['C%02d' % i for i in range(1, 21)] if allchecks else [s.split('-')[0]]
         out = {}
         for p in props:
-            r = subprocess.run([V + '/bin/vlcheck', '-property', p, '-repo', wt, '-verif', ev], capture_output=True, text=True)
+            r = subprocess.run([os.environ.get('VLCHECK', V + '/bin/vlcheck'), '-property', p, '-repo', wt, '-verif', ev], capture_output=True, text=True)
             if r.returncode == 1:
                 out[p] = sorted(set(re.findall(r'\[' + p + r'\.(\w+)\]', r.stdout))) or ['?']
             elif r.returncode != 0:
